@@ -108,8 +108,13 @@ def match_known(prop, v, known):
 
 # ----------------------------------------------------------------------------- main driver
 
-def replay(job, path):
-    return KINDS[job['kind']][1](job, path)
+def replay(job, path, lenient=False):
+    '''lenient: for committed regression artefacts (line worlds): tolerate events that a later, benign change of the
+    library added at or removed from an instant; never used by the determinism gate.'''
+    f = KINDS[job['kind']][1]
+    if lenient and job['kind'] == 'line':
+        return f(job, path, lenient=True)
+    return f(job, path)
 
 
 def gate(job, v):
